@@ -144,7 +144,7 @@ class Interp:
         return __USIM_STATE__.loop
 
     def emit(self, label, tag, args=()):
-        if self.ended:
+        if self.ended or getattr(self, 'quiet', False):
             return
         lp = self.loop()
         self.events.append('%s:%d:%d:%s:%s' % (t2s(lp.time, self.kind), lp.turn, label, tag,
@@ -368,6 +368,7 @@ class Interp:
                 else:
                     raise
         elif h == 'ret':
+            self.emit(label, 'ret', [s[1]])
             raise _Ret(s[1])
         elif h == 'lock':
             self.emit(label, 'lreq', [s[1]])
@@ -524,8 +525,17 @@ class Interp:
             finally:
                 stuck = ((self.labels & self.started) - self.finished) - before
                 self.nested_unfinished |= stuck
-                for c in inner:
-                    c.close()
+                # leftovers of the inner simulation are finalised here (CPython would do it at some
+                # later garbage collection); nothing they do while being torn down is an observation
+                self.quiet = True
+                try:
+                    for c in inner:
+                        try:
+                            c.close()
+                        except BaseException:   # noqa
+                            pass
+                finally:
+                    self.quiet = False
         else:
             raise ValueError('unknown statement %r' % (s,))
 
@@ -660,10 +670,17 @@ class Interp:
                             self.events.append('%s:%d:%d:stuck:' % (t2s(loop.time, self.kind), loop.turn, lb))
         self.ended = True
         nl = self.num('locks', 0)
-        obs = 'locks=%s/levels=%s/queues=%s' % (
+        # afterwards this thread sees no simulation: `time.now` must raise
+        try:
+            from usim import time as _time
+            _time.now
+            visible = 1
+        except RuntimeError:
+            visible = 0
+        obs = 'locks=%s/levels=%s/queues=%s/visible=%d' % (
             ','.join('1' if lk._owner is None else '0' for lk in self.locks[:nl]),
             ';'.join(','.join(str(v) for _, v in self.res[i].levels) for i in range(len(self.fields.get('resources', [])))),
-            ','.join(str(len(q._buffer)) for q in self.queues))
+            ','.join(str(len(q._buffer)) for q in self.queues), visible)
         # unfinished = activities whose own code started but has not ended
         unfinished = sorted(((self.labels & self.started) - self.finished) | self.nested_unfinished)
         result = {'events': self.events, 'outcome': outcome, 'final': t2s(loop.time, self.kind),
